@@ -65,6 +65,8 @@ EnclosedBy(kinds) == \E d \in 1..Depth : st.stk[d].kind \in kinds
 \* an opener with the field `any` may be opened in every context: the builder API does not enforce the grammar's nesting
 \* (a loop as a direct branch of a parallel block cannot be written as text, but it can be built)
 OLoopAny(cnt, par) == [k |-> "loop", count |-> cnt, par |-> par, any |-> TRUE]
+OSeqAny == [k |-> "seq", any |-> TRUE]        \* a sequential block directly inside a sequential block, ...
+OParAny == [k |-> "par", any |-> TRUE]        \* ... a parallel block directly inside a parallel one (buildable, not writable)
 LegalOpen(o) ==
   IF "any" \in DOMAIN o THEN TRUE ELSE
   CASE o.k = "seq" -> TopF.kind \in {"top", "par"}
